@@ -85,6 +85,17 @@ def make_stream(rng, kind):
         s = b"".join(parts[:k]) + frame(gens.rb(rng, rng.randrange(1, 60))) + b"".join(parts[k:])
     elif kind == "mutated":
         s = gens.mutate(rng, s)
+    elif kind == "tail_badmagic":
+        # the stream ends in the first 4-7 bytes of a next frame whose magic is wrong: refused as soon as 4 bytes are there
+        bad = bytearray(MAGIC)
+        bad[rng.randrange(0, 4)] ^= 1 << rng.randrange(0, 8)
+        s = s + bytes(bad) + gens.rb(rng, rng.randrange(0, 4))
+    elif kind == "tail_toobig":
+        # … or in exactly the 8 header bytes of a next frame whose length is over the limit
+        s = s + MAGIC + struct.pack(b">I", rng.choice([MAX_MESSAGE_SIZE + 1, 2 ** 32 - 1]))
+    elif kind == "tail_partial":
+        # … or in an incomplete, so far well-formed header: not refused, the receiver waits
+        s = s + (MAGIC + struct.pack(b">I", rng.randrange(0, 300)))[:rng.randrange(1, 8)]
     return s
 
 
@@ -180,7 +191,8 @@ def run(ctx):
     rng = ctx.rng
     socket_path(ctx, res)
     ops, impl = [], []
-    kinds = ["plain", "badmagic", "toobig", "atlimit", "pastend", "zerolen", "garbagepayload", "mutated", "long", "short", "short"]
+    kinds = ["plain", "badmagic", "toobig", "atlimit", "pastend", "zerolen", "garbagepayload", "mutated", "long", "short", "short",
+             "tail_badmagic", "tail_toobig", "tail_partial", "tail_badmagic"]
 
     def one(chunks, stream_id, whole_line):
         line, payloads, err = impl_feed(chunks)
@@ -225,7 +237,8 @@ def run(ctx):
     kit.compare(res, ops, impl, model)
     res.rule = ("streams of 1-6 framed messages built from the repository's message classes, plain and corrupted "
                 "(wrong magic at each position, length = limit / limit+1 / 2^32-1 / running past the end, zero length, "
-                "undecodable payload, random mutation); every 2-way cut of streams ≤ %d bytes, every 3-way cut of the "
+                "undecodable payload, random mutation, a stream ending in the first 4-7 bytes of a frame with a wrong magic / in the 8 "
+                "header bytes of an over-limit frame / in an incomplete well-formed header); every 2-way cut of streams ≤ %d bytes, every 3-way cut of the "
                 "shorter ones, random k-way cuts and byte-by-byte delivery, through the real MessageReceiver.receive "
                 "and real message decoding; compared with the model's parser and with the unfragmented outcome. "
                 "Non-trivial = a fragmentation into ≥ 2 chunks (distinct by stream and cut points)" % exhaustive_limit)
